@@ -199,7 +199,8 @@ Proof.
     destruct (csR_gapped r (map (fun e => e * v + r) (used steps r draws)) Hr) as [_ Hge].
     { apply intervals_ge; auto. apply firstn_Forall; auto. }
     rewrite Forall_forall in Hge. specialize (Hge _ Hc).
-    pose proof (clamp_index_range steps c (Rle_trans _ _ _ Hr Hge)). lia.
+    destruct (clamp_index_range steps c (Rle_trans _ _ _ Hr Hge)) as [A B].
+    split; [exact A|]. eapply Z.le_lt_trans; [exact B|lia].
   - eapply Forall_impl; [|apply exp_indices_none]. simpl. intros; subst. lia.
 Qed.
 
